@@ -57,6 +57,14 @@ func AwaitDone(w *World, r *Req) (hung bool, inconclusive string) {
 
 // RunExchange runs the case's request between a real requestor and a real cooperative responder.
 func RunExchange(c *Case, level int, setup func(x *Exchange)) *Exchange {
+	return runExchangeFull(c, level, setup, nil)
+}
+
+func runExchangeExt(c *Case, level int, exts []graphsync.ExtensionData) *Exchange {
+	return runExchangeFull(c, level, nil, exts)
+}
+
+func runExchangeFull(c *Case, level int, setup func(x *Exchange), exts []graphsync.ExtensionData) *Exchange {
 	w := NewWorld()
 	x := &Exchange{W: w}
 	x.Pert = NewPerturber(c.PertSeed, level)
@@ -71,7 +79,7 @@ func RunExchange(c *Case, level int, setup func(x *Exchange)) *Exchange {
 	if setup != nil {
 		setup(x)
 	}
-	x.Req = w.Request(x.A, x.B.ID, c.DAG.Root, c.Sel)
+	x.Req = w.Request(x.A, x.B.ID, c.DAG.Root, c.Sel, exts...)
 	x.Hung, x.Inconcl = AwaitDone(w, x.Req)
 	if !x.Hung && x.Inconcl == "" {
 		if ok, why := w.Quiesce(); !ok {
